@@ -177,8 +177,11 @@ CHECKS["C06"] = dict(
          "and order untouched), element_named_takes_the_value_sent / element_not_named_is_unchanged, text_verbatim, number_by_the_common_reader "
          "(the reader C10 proves correct), blob_byte_for_byte (base64 + size check on exactly what the client library sends), "
          "switch_write_follows_the_rule (states pushed through the rule child by child), no_other_property_changes, no_other_device_is_reached "
-         "(router), submit_sends_exactly_the_assigned_elements (client). The composition client -> serializer -> fragmented stream -> server "
-         "connection handler -> framing -> router -> driver -> back is the system model (System/Model.v), VALIDATED by running the real stack "
+         "(router), submit_sends_exactly_the_assigned_elements (client), and a_submitted_write_end_to_end: in the composed system model a connected "
+         "network client's submitted write reaches the driver of the named device, what the driver publishes reaches the client, nothing stays in "
+         "flight and the writer's view is in sync with the device again (writes that make the driver publish no BLOB update). That the system "
+         "model (System/Model.v) is the real stack client -> serializer -> fragmented stream -> server connection handler -> framing -> router -> "
+         "driver -> back is VALIDATED by running the real stack "
          "(byte pipes with fragmentation between the library's client and server connection handlers) and comparing every device state and client "
          "view after every operation; a model-free oracle judges each write (values, siblings, other properties, other devices, writer's view).",
     note=NOTE_BASE + "Known finding K1-C06: a write whose newBLOBVector exceeds the 2048-character threshold of the server's receive buffer is lost.",
